@@ -30,16 +30,17 @@ def build(job):
         pattern_files = [(n, s) for n, pat, s in files if pat]
         # the configured path of a renamed pattern file is its NEW name; the KEY under which it is configured may be another spelling of the
         # path (./name, a glob that matches only it): which file carries a pattern does not depend on the spelling
-        proj.write("bumpver.toml", project.bumpver_toml(OLD, "MAJOR.MINOR.PATCH", [(keys[n], ["{version}"]) for n, _s in pattern_files], commit=True))
+        # series.txt carries a PARTIAL pattern (MAJOR.MINOR): under --patch its text does not change - it still is a file carrying a version pattern
+        proj.write("bumpver.toml", project.bumpver_toml(OLD, "MAJOR.MINOR.PATCH", [(keys[n], ["series MAJOR.MINOR" if n == "series.txt" else "{version}"]) for n, _s in pattern_files], commit=True))
         for n, pat, s in files:
             if s in ("A ", "AM", "??"):
                 continue
             name = "old_" + n if s in ("R ", "RM") else n
-            proj.write(name, ("version %s\n" % OLD if pat else "content\n") + "line two\n")
+            proj.write(name, (("series 1.2\n" if n == "series.txt" else "version %s\n" % OLD) if pat else "content\n") + "line two\n")
         git(root, "add", "-A")
         git(root, "commit", "-q", "-m", "init")
         for n, pat, s in files:
-            body = ("version %s\n" % OLD if pat else "content\n") + "line two\n"
+            body = (("series 1.2\n" if n == "series.txt" else "version %s\n" % OLD) if pat else "content\n") + "line two\n"
             p = os.path.join(root, n)
             if s in (" M", "M ", "MM"):
                 proj.write(n, body + "user edit 1\n")
@@ -112,7 +113,10 @@ def run(ctx):
         for allow in (False, True):
             for key in ("./pat.txt", "pat.tx?"):
                 jobs.append(([("pat.txt", True, s, key), ("other.txt", False, "clean")], allow, len(jobs), "clean"))
-    names = [("pat.txt", True), ("src_p2.py", True), ("other.txt", False), ("M x.txt", False), ("notes.md", False)]
+    for s in STATES:                                      # ... and with a pattern file whose (partial) pattern renders the same text before and after the bump
+        for allow in (False, True):
+            jobs.append(([("pat.txt", True, "clean"), ("series.txt", True, s), ("other.txt", False, "clean")], allow, len(jobs), "clean"))
+    names = [("pat.txt", True), ("src_p2.py", True), ("other.txt", False), ("M x.txt", False), ("notes.md", False), ("series.txt", True)]
     spell = {"pat.txt": ["pat.txt", "pat.txt", "./pat.txt", "pat.tx?", ".//pat.txt"], "src_p2.py": ["src_p2.py", "src_p2.py", "./src_p2.py", "src_*.py"]}
     for i in range(ctx.pick(160, 1300)):
         k = rng.randrange(2, len(names) + 1)
@@ -129,8 +133,8 @@ def run(ctx):
         if f["clause"] == "dirty:divergence-refused-although-clean-enough":
             ctx.divergence(f["clause"], e["dbg"])
             continue
-        pat_states = sorted(set(s for n, s in e["states"].items() if n in ("pat.txt", "src_p2.py") and s != "clean"))
-        ctx.violation(dict(clause=f["clause"], allow=e["allow"], pattern_file_states=pat_states, leading_blank=any(s.startswith(" ") for s in pat_states), rename=("R " in pat_states or "RM" in pat_states), respelled_key=bool(e["spelled"])),
+        pat_states = sorted(set(s for n, s in e["states"].items() if n in ("pat.txt", "src_p2.py", "series.txt") and s != "clean"))
+        ctx.violation(dict(clause=f["clause"], allow=e["allow"], pattern_file_states=pat_states, leading_blank=any(s.startswith(" ") for s in pat_states), rename=("R " in pat_states or "RM" in pat_states), partial_pattern_file_dirty=e["states"].get("series.txt", "clean") != "clean", respelled_key=bool(e["spelled"])),
                       case=dict(what=e["dbg"], exc=e["exc"][:200]))
     ctx.count("repositories", len(events))
     ctx.count("blocked_runs", sum(1 for e in events if e["exit"] != 0))
@@ -139,7 +143,7 @@ def run(ctx):
     for e in events:
         ctx.nontriv(e["dbg"])
     ctx.rule = ("real git repositories: the 11 x 2 x 2 single-file matrix (state x pattern/unrelated x --allow-dirty) and seeded multi-file working trees (2..5 files, config file "
-                "sometimes modified, a file name that looks like a status line, pattern files configured as name, ./name, .//name or a glob matching only them); status text is real git's; the bump commit's content is compared with the previous commit's; "
+                "sometimes modified, a file name that looks like a status line, pattern files configured as name, ./name, .//name or a glob matching only them, a pattern file with a partial pattern that the bump leaves unchanged); status text is real git's; the bump commit's content is compared with the previous commit's; "
                 "non-trivial = distinct working trees")
     for e in events[2:5]:
         ctx.sample(dict(what=e["dbg"]))
